@@ -532,12 +532,34 @@ func finish(o *Orch, plan *Plan, tier string, verifSeed uint64, agg *Agg, start 
 	var reported []map[string]interface{}
 	knownSeen := map[string]int{}
 
-	// crash candidates: confirm by a solo re-run before they count
-	for _, c := range agg.Crashes {
-		_, died, timedOut, stderr := o.runOne(c.World, c.Scenario, scenUID(c.Scenario), false)
+	// crash candidates: confirm by a solo re-run before they count. Only the smallest few are
+	// re-run (in parallel): each hanging candidate costs its whole real-time budget.
+	sort.SliceStable(agg.Crashes, func(i, j int) bool { return len(agg.Crashes[i].Scenario) < len(agg.Crashes[j].Scenario) })
+	cands := agg.Crashes
+	if len(cands) > 6 {
+		cands = cands[:6]
+	}
+	type crashRes struct {
+		died, timedOut bool
+		stderr         string
+	}
+	cres := make([]crashRes, len(cands))
+	var cwg sync.WaitGroup
+	for i := range cands {
+		cwg.Add(1)
+		go func(i int) {
+			defer cwg.Done()
+			_, d, t, se := o.runOne(cands[i].World, cands[i].Scenario, scenUID(cands[i].Scenario), false)
+			cres[i] = crashRes{d, t, se}
+		}(i)
+	}
+	cwg.Wait()
+	unconfirmed := 0
+	for i, c := range cands {
+		died, timedOut, stderr := cres[i].died, cres[i].timedOut, cres[i].stderr
 		if !died && !timedOut {
-			fmt.Fprintf(os.Stderr, "verifctl: worker %s on %s/%s seed %d did not repeat in a solo run; treating as infrastructure trouble\n", c.Kind, c.World, c.Profile, c.Seed)
-			exit = 2
+			fmt.Fprintf(os.Stderr, "verifctl: worker %s on %s/%s seed %d did not repeat in a solo run\n", c.Kind, c.World, c.Profile, c.Seed)
+			unconfirmed++
 			continue
 		}
 		k := vkey{"C19", "process-died", crashClass(stderr)}
@@ -551,6 +573,11 @@ func finish(o *Orch, plan *Plan, tier string, verifSeed uint64, agg *Agg, start 
 			continue
 		}
 		agg.Found = append(agg.Found, Found{V: simkit.Violation{Prop: k.Prop, Oracle: k.Oracle, Class: k.Class, Detail: detail}, World: c.World, Profile: c.Profile, Seed: c.Seed, Scenario: c.Scenario, Size: len(c.Scenario)})
+	}
+	if unconfirmed > 0 && unconfirmed == len(cands) {
+		// nothing repeated: the batch was disturbed (overloaded machine, killed worker) - infrastructure
+		fmt.Fprintf(os.Stderr, "verifctl: none of %d crashed/timed-out workers repeated solo; treating as infrastructure trouble\n", len(cands))
+		exit = 2
 	}
 	if exit == 2 {
 		return 2
